@@ -22,6 +22,7 @@ func checkC01(c *Ctx) {
 	e2CheckLayouts(c, "C01-K1", isV4Header, 3)
 	byteOrderRule(c, "C01-K6", []string{"dhcpv4", "iana", "rfc1035label"}, 10)
 	c01Names(c, "C01-K2")
+	decoderKeepsResult(c, "C01-K7", c.P.Func(modPath+"/dhcpv4.FromBytes"))
 	c01Split(c)
 	c09Reassembly2(c, "C01-K4")
 	sortedKeysComplete(c, "C01-K5")
